@@ -387,6 +387,17 @@ def helper_contracts(ctx, rep):
                     rep.check(searched, 'negative result on path %s comes after a search step' % wk.path, g.blocks[wk.path[-1]][-1].loc, '%s: token rejected without searching' % base_name(g.name),
                               key='HELP-3|early-reject')
             rep.instances(n, 1, 'negative-return paths of lang_search')
+        rep.rule('HELP-5', 'dep:u8_nfc is called from polyseed_encode itself or from a helper in which the call is unconditional (it lies on every path from '
+                 'the helper\'s entry to its return): composition cannot be skipped depending on the phrase bytes')
+        n5 = 0
+        for g in P.defined.values():
+            for i, t in P.calls(g):
+                if t != ('dep', 'u8_nfc'): continue
+                n5 += 1
+                ok = base_name(g.name) == 'polyseed_encode' or g.reach_ret_avoiding(g.blocks[0][0], {i.id}, from_after=False) is None
+                rep.check(ok, 'dep:u8_nfc call at %s is unconditional within %s' % (i.loc, base_name(g.name)), i.loc, '%s: composition is skipped on some paths' % base_name(g.name),
+                          key='HELP-5|%s' % base_name(g.name))
+        rep.instances(n5, 1, 'dep:u8_nfc call sites')
         rep.rule('HELP-4', 'the default clock returns the value of time(NULL) unchanged (no truncation)')
         for g in P.defined.values():
             calls = [i for i, t in P.calls(g) if t == ('direct', 'time')]
